@@ -7,6 +7,7 @@ is 0), beats_per_bar > 0.
 
 A program is JSON-able:
   {'clock': {'tempo':, 'beats':, 'seconds':}, 'root_quant': spec | None,
+   'create_at': second (nrt),
    'steps': [ {'ops': [op, ...], 'delta': beats | None}, ... ]}
   op = ['tempo', v] | ['etempo', v] | ['beats', v | {'rel': x}] | ['bpb', v]
      | ['play', quant_spec, how] | ['grid', q, p, refspec] | ['ttnb', q]
@@ -103,7 +104,8 @@ def gen_program(rng, kind):
         tempo = rng.choice([20, 50.0, 100, rng.uniform(10, 200)])
         clock = {'tempo': tempo,
                  'beats': rng.choice([None, 0, 3.5, 100, rng.uniform(-50, 50)]),
-                 'seconds': rng.choice([None, 'now', 'now-1', 'now+0.01'])}
+                 'seconds': rng.choice([None, 'now', 'now-1', 'now+0.01',
+                                        0, 0.0])}
     else:
         tempo = gen_tempo(rng)
         span = 1e6 if kind == 'grid' and rng.random() < 0.5 else 1e3
@@ -199,7 +201,8 @@ def gen_program(rng, kind):
                     ops.append(['grid', q, p, gen_ref(rng, q)])
                 elif c < 0.85 if kind == 'grid' else c < 0.5:
                     q = gen_quant(rng, bpb)
-                    ops.append(['ttnb', q if q else 1])
+                    ops.append(['ttnb', rng.choice(
+                        [q, q, quant_spec(rng, q, gen_phase(rng, q))])])
                 elif c < 0.9 if kind == 'grid' else c < 0.7:
                     ops.append(['conv', rng.uniform(-1e6, 1e6)
                                 if rng.random() < 0.3 else cur + rng.uniform(-20, 20),
@@ -218,7 +221,12 @@ def gen_program(rng, kind):
             d = delta()
             steps[k]['delta'] = d
             cur += d
-    return {'clock': clock, 'root_quant': root_quant, 'steps': steps}
+    prog = {'clock': clock, 'root_quant': root_quant, 'steps': steps}
+    if not rt:
+        # logical second at which the clock is created and the root routine
+        # played (from a function scheduled on SystemClock when > 0)
+        prog['create_at'] = rng.choice([0, 0, 0.5, 3.0, rng.uniform(0, 100)])
+    return prog
 
 
 def features(prog):
